@@ -2,15 +2,59 @@
 
 package writer
 
+import (
+	"bytes"
+	"runtime"
+)
+
 // Hooks for the /verif correspondence harness (build tag verif, injected with -overlay; not part of the repo).
 
-// VerifDrainPqsRequests takes every request that is queued in pqsChan and hands them to
-// processBackFillAndEmptyPQSRequests, the function the listener goroutine
-// (listenBackFillAndEmptyPQSRequests) calls every PQS_TICKER seconds or PQS_FLUSH_SIZE requests.
-// In a process that started on a fresh data directory that goroutine does not run at all (initSmr
-// returns before `go listenBackFillAndEmptyPQSRequests()` when it had to create segmeta.json), so
-// nothing else reads the channel.  Returns the number of requests processed.
+var verifPqsListenerSeen = false
+
+// verifPqsListenerRuns: is the goroutine listenBackFillAndEmptyPQSRequests alive in this process?  (It is started by
+// initSmr; it never returns, so one positive answer is final.)
+func verifPqsListenerRuns() bool {
+	if verifPqsListenerSeen {
+		return true
+	}
+	buf := make([]byte, 1<<20)
+	for {
+		n := runtime.Stack(buf, true)
+		if n < len(buf) {
+			buf = buf[:n]
+			break
+		}
+		buf = make([]byte, 2*len(buf))
+	}
+	verifPqsListenerSeen = bytes.Contains(buf, []byte("writer.listenBackFillAndEmptyPQSRequests"))
+	return verifPqsListenerSeen
+}
+
+// VerifDrainPqsRequests returns when every request that was queued in pqsChan before the call has been processed
+// by the real processBackFillAndEmptyPQSRequests.
+//
+// With the listener goroutine running (listenBackFillAndEmptyPQSRequests, the only receiver of pqsChan: it copies
+// every request into a private buffer and processes the buffer when it holds PQS_FLUSH_SIZE requests, or every
+// PQS_TICKER seconds) the hook waits for an EVENT, it neither sleeps nor polls: it sends PQS_FLUSH_SIZE + cap(pqsChan)
+// requests that ask for nothing (no flag set: processBackFillAndEmptyPQSRequests skips them).  Let S be the number
+// of requests sent on the channel before the call and C its capacity.
+//   - The last real request is request S; wherever it lands in the listener's buffer, the buffer is full — and is
+//     processed, synchronously, in the listener goroutine — at the latest when request S+PQS_FLUSH_SIZE-1 has been
+//     received, i.e. BEFORE the listener receives request S+PQS_FLUSH_SIZE.
+//   - A send on a full buffered channel completes only when a receive has made room: the completion of send number
+//     k+C is synchronized after receive number k (Go memory model).  The hook's last send is number
+//     S+PQS_FLUSH_SIZE+C, so when it returns the listener has received request S+PQS_FLUSH_SIZE.
+// Hence every request queued before the call has been processed when the hook returns.  All writes stay in the
+// listener goroutine, as in production; the requests left in the channel ask for nothing.
+// Without a listener (a process that never ran initSmr) the hook takes the requests off the channel and hands them
+// to processBackFillAndEmptyPQSRequests itself.  Returns the number of requests it processed itself.
 func VerifDrainPqsRequests() int {
+	if verifPqsListenerRuns() {
+		for i := 0; i < PQS_FLUSH_SIZE+cap(pqsChan); i++ {
+			pqsChan <- PQSChanMeta{}
+		}
+		return 0
+	}
 	var reqs []PQSChanMeta
 	for {
 		select {
